@@ -1,6 +1,8 @@
 """C03 -- posterior rows are faithful (point, log-likelihood, blob) triples, once each."""
 from ..sampler_rules import rule_L1_sampler, rule_L2_move, rule_L3_L4, rule_L5
 from ..shape import rule_S1
+from ..effects import rule_F5, rule_F7
+from ..agree import rule_A5
 
 LEVEL_TEXT = ('Static lockstep analysis of the parallel point / log-likelihood / blob arrays '
               'along every bounded path of add_bound, add_samples and posterior, ordered-map and '
@@ -14,3 +16,16 @@ def run(ctx):
     rule_L5(ctx)
     rule_S1(ctx, ['Sampler.evaluate_likelihood', 'Sampler.add_samples', 'Sampler.sample_shell',
                   'Sampler.posterior'])
+    rule_F5(ctx)
+    rule_F7(ctx)
+    rule_A5(ctx)        # each evaluated / transferred point is used at most once
+    ctx.floor('L1', 8, 'member lockstep verdicts')
+    ctx.floor('L2', 3, 'move obligations')
+    ctx.floor('L3', 4, 'row extensions')
+    ctx.floor('L4', 6, 'aligned-source obligations')
+    ctx.floor('L5', 8, 'view obligations')
+    ctx.floor('F7', 4, 'prior-transform call sites')
+    ctx.assumptions += ['the user likelihood is a pure function of its argument']
+    ctx.not_decided += ['dtype inference for exotic blob types',
+                        'value equality log_l == likelihood(point) (decided: alignment and '
+                        'order of the stored triples)']
